@@ -31,6 +31,14 @@ CIRCUITS = {
     "CRY.CRZ": lambda p: [qp.RY(p[2], 0), qp.CRY(p[0], [0, 1]), qp.CRZ(p[1], [1, 0])],
     "GlobalPhase.RZ.H": lambda p: [qp.Hadamard(0), qp.GlobalPhase(p[0], wires=0), qp.RZ(p[1], 0), qp.Hadamard(0), qp.RY(p[2], 1)],
     "string wires": lambda p: [qp.RX(p[0], "b"), qp.RY(p[1], "a"), qp.CNOT(["b", "a"])],
+    # parameter broadcasting (a batch of two angles) and wires that only occur in measurements
+    "batched RX.CNOT": lambda p: [qp.RX(np.array([p[0].item() if hasattr(p[0], "item") else p[0], p[1].item() if hasattr(p[1], "item") else p[1]], dtype=object if sx.is_symbolic(p[0]) else float), 0), qp.RY(p[2], 1), qp.CNOT([0, 1])],
+    "RX.CNOT": lambda p: [qp.RX(p[0], 0), qp.RY(p[2], 1), qp.CNOT([0, 1])],
+}
+IDLE_MEAS = {
+    "probs[1,2] (wire 2 idle), expval Z2": lambda w: [qp.probs(wires=[1, 2]), qp.expval(qp.PauliZ(2))],
+    "expval Z1@X0, probs[2,0] (wire 2 idle)": lambda w: [qp.expval(qp.PauliZ(1) @ qp.PauliX(0)), qp.probs(wires=[2, 0])],
+    "var Y1, expval Z3@Z1 (wires 2,3 idle)": lambda w: [qp.var(qp.PauliY(1)), qp.expval(qp.PauliZ(3) @ qp.PauliZ(1))],
 }
 MEAS = {
     "expval Z0": lambda w: [qp.expval(qp.PauliZ(w[0]))],
@@ -46,7 +54,7 @@ MEAS = {
 def build_tape(cname, mname, p):
     ops = CIRCUITS[cname](p)
     ws = list(qp.tape.QuantumScript(ops).wires)
-    return qp.tape.QuantumScript(ops, MEAS[mname](ws))
+    return qp.tape.QuantumScript(ops, {**MEAS, **IDLE_MEAS}[mname](ws))
 
 
 def device_wires(tape):
@@ -170,7 +178,16 @@ def work(item):
 def run(ctx):
     ctx.level = "proof"
     items = []
+    for c in ("batched RX.CNOT", "RX.CNOT"):
+        for m in IDLE_MEAS:
+            for dev in ("default.mixed",) + (("reference.qubit",) if c == "RX.CNOT" else ()):
+                items.append((c, m, dev))
+        if c == "batched RX.CNOT":
+            for m in ("expval Z0@X1, var Y1", "probs all, probs[1,0]"):
+                items.append((c, m, "default.mixed"))
     for c in CIRCUITS:
+        if c in ("batched RX.CNOT", "RX.CNOT"):
+            continue
         for m in MEAS:
             for dev in ("default.mixed", "reference.qubit", "null.qubit"):
                 if m == "state" and dev == "reference.qubit" and False:
@@ -188,8 +205,8 @@ def run(ctx):
     from pennylane.devices.qubit import get_final_state, measure_final_state
 
     ctx.encode(get_final_state, measure_final_state, MIX.get_final_state, MIX.measure_final_state, RQ.simulate, RQ.ReferenceQubit.preprocess)
-    ctx.bound(parameters="all real gate angles (3 symbols)", circuits=list(CIRCUITS), measurements=list(MEAS), devices=["default.mixed", "reference.qubit (full preprocessing pipeline)", "null.qubit (shapes)"],
-              outside="default.tensor (quimb tensor networks) and default.clifford (stim tableau simulator): execution happens inside external numeric libraries that cannot carry solver terms; finite shots; broadcasting")
+    ctx.bound(parameters="all real gate angles (3 symbols)", circuits=list(CIRCUITS), measurements=list(MEAS) + list(IDLE_MEAS), broadcasting="a batch of two symbolic RX angles on default.mixed, with wires that occur only in measurements", devices=["default.mixed", "reference.qubit (full preprocessing pipeline)", "null.qubit (shapes)"],
+              outside="default.tensor (quimb tensor networks) and default.clifford (stim tableau simulator): execution happens inside external numeric libraries that cannot carry solver terms; finite shots; broadcasting on reference.qubit (broadcast_expand) and with batch sizes other than 2")
     ctx.assume(*sx.SHIM_NOTES, "default.mixed initial state created as an object array")
     ctx.rule = "one obligation per (circuit, measurement list, device, result); non-trivial = mentions a symbolic angle"
     ctx.pmap(work, items, timeout_each=900)
